@@ -178,7 +178,7 @@ def cseAnswer (ws : List String) : String :=
   | some (s1, []), some (s2, []) =>
     let ks := (cseCommon s1 s2).map fun k => s!"{opName k.1}:{showOpd k.2.1}:{showOpd k.2.2}"
     let ks := (ks.eraseDups.toArray.qsort (· < ·)).toList
-    "hoisted " ++ (if ks.isEmpty then "-" else ",".intercalate ks)
+    "hoisted " ++ (if ks.isEmpty then "-" else ",".intercalate ks) ++ " branches=same"
   | _, _ => "bad-line"
 
 /-- `inl NP arg*NP RET <callee body>`: what replaces `v90 = f1(args)`; mangled names print as `m:v<k>` -/
@@ -395,6 +395,17 @@ def dceloopAnswer (ws : List String) : String :=
     if (keptLoopVars true lvs body []).contains 1 then "kept" else "dropped"
   | none => "bad-line"
 
+/-- `dcel RET <block>`: DCE of a block with SingleIf / IfElse (token language of `lvn`) -/
+def dcelAnswer (ws : List String) : String :=
+  match ws with
+  | ret :: rest =>
+    match operandOf ret, parseL rest with
+    | some r, some p =>
+      let q := (dceL p r.vars).1
+      if q.isEmpty then "-" else " ".intercalate (q.map showL)
+    | _, _ => "bad-line"
+  | _ => "bad-line"
+
 def licmAnswer (ws : List String) : String :=
   match parseS ws with
   | some p =>
@@ -463,6 +474,7 @@ def step (_ : Unit) (line : String) : Unit × String :=
     | "licmk" :: rest => licmkAnswer rest
     | "ivuse" :: rest => ivuseAnswer rest
     | "dceuse" :: rest => dceuseAnswer rest
+    | "dcel" :: rest => dcelAnswer rest
     | "dceloop" :: rest => dceloopAnswer rest
     | "algopt" :: rest => algoptAnswer rest
     | "lvn" :: rest => lvnAnswer rest
